@@ -450,6 +450,7 @@ func main() {
 					run.Count("crowd_scenarios", 1)
 					run.Count("crowd_deliveries_to_staying_collectors", cr.Deliveries)
 					run.Count("crowd_subscribe_unsubscribe_pairs", cr.ChurnOps)
+					run.Count("racing_remove_task_calls", cr.RemoveRaces)
 					for k, kind := range cr.Kinds {
 						run.Violate(cr.Idx, kind, map[string]string{"slow_collectors": fmt.Sprint(cr.SlowMs > 0)}, map[string]interface{}{"scenario": cr, "note": cr.Notes[k]})
 					}
